@@ -412,6 +412,9 @@ def require(ctx, tier):
         raise HarnessError("C03 never checked composition / multiple simultaneous errors")
 
 
+# thorough tier: libFuzzer (atheris) also drives this strategy with coverage feedback from d42
+COVERAGE_GUIDED = {"runs": 60000, "seconds": 120}
+
 MANIFEST = {
     "text": "Generated-input search biased to several simultaneous errors in sibling members: every "
             "returned error is checked for location (path resolves to the reported object), truth "
